@@ -9,6 +9,7 @@ import (
 	"regexp"
 	"runtime"
 	"runtime/debug"
+	"runtime/metrics"
 	"sort"
 	"strings"
 	"sync"
@@ -65,16 +66,16 @@ type Violation struct {
 }
 
 type Result struct {
-	ID        int        `json:"id"`
-	Viol      *Violation `json:"viol,omitempty"`
-	Outcome   string     `json:"outcome"`   // outcome class of the connection / call
-	Handled   int        `json:"handled"`   // events fully processed
-	Reached   bool       `json:"reached"`   // the event under test reached its handler (framing accepted)
-	Disturbed bool       `json:"disturbed"` // an unscripted Tick ran (timing); parent re-runs
-	Fatal     bool       `json:"fatal"`     // worker must be restarted after this case
+	ID        int          `json:"id"`
+	Viol      *Violation   `json:"viol,omitempty"`
+	Outcome   string       `json:"outcome"`        // outcome class of the connection / call
+	Handled   int          `json:"handled"`        // events fully processed
+	Reached   bool         `json:"reached"`        // the event under test reached its handler (framing accepted)
+	Disturbed bool         `json:"disturbed"`      // an unscripted Tick ran (timing); parent re-runs
+	Fatal     bool         `json:"fatal"`          // worker must be restarted after this case
 	More      []*Violation `json:"more,omitempty"` // lib batches: one entry per panicking input
-	Died      bool       `json:"-"`         // parent side: the worker process died on this case
-	Micros    int64      `json:"us"`
+	Died      bool         `json:"-"`              // parent side: the worker process died on this case
+	Micros    int64        `json:"us"`
 }
 
 var watchdog = 60 * time.Second
@@ -94,6 +95,7 @@ type nodeEnv struct {
 	locks     map[string]*sync.Mutex
 	lockNames []string
 	feeKB     uint64
+	spare     *network.OneConnection
 }
 
 var (
@@ -341,7 +343,7 @@ func lockBlocked(state string) bool {
 var (
 	reAddr  = regexp.MustCompile(`0x[0-9a-f]+`)
 	reFrame = regexp.MustCompile(`(?m)^(\S[^\n]*)\n\t(\S+):(\d+)`)
-	reNum   = regexp.MustCompile(`\[[^\]]*\]|\b\d+\b`)
+	reNum   = regexp.MustCompile(`\d+`)
 )
 
 type frame struct {
@@ -368,7 +370,13 @@ func frames(stack string) []frame {
 
 const gocoinPfx = "github.com/piotrnar/gocoin/"
 
-func short(fn string) string { return strings.TrimPrefix(fn, gocoinPfx) }
+func short(fn string) string {
+	fn = strings.TrimPrefix(fn, gocoinPfx)
+	fn = strings.Replace(fn, "client/network.(*OneConnection).", "conn.", 1)
+	fn = strings.TrimPrefix(fn, "client/")
+	fn = strings.TrimPrefix(fn, "lib/")
+	return fn
+}
 
 func baseFile(f string) string {
 	if i := strings.LastIndex(f, "/"); i >= 0 {
@@ -381,6 +389,13 @@ func baseFile(f string) string {
 // part after the runtime's "panic(" frame) and the handler frame right above
 // OneConnection.Run.
 func site(stack string, afterPanic bool) (siteFn, siteLoc, handler string) {
+	siteFn, siteLoc, handler, _ = site4(stack, afterPanic)
+	return
+}
+
+// site4 additionally returns the function the handler was in when it called down
+// (stable for a busy loop whose innermost frame varies between samples).
+func site4(stack string, afterPanic bool) (siteFn, siteLoc, handler, callee string) {
 	fs := frames(stack)
 	start := 0
 	if afterPanic {
@@ -400,12 +415,19 @@ func site(stack string, afterPanic bool) (siteFn, siteLoc, handler string) {
 		if strings.HasSuffix(fs[i].fn, "network.(*OneConnection).Run") && i > start {
 			if strings.HasPrefix(fs[i-1].fn, gocoinPfx) {
 				handler = short(fs[i-1].fn)
+				callee = handler
+				if i-2 >= start && strings.HasPrefix(fs[i-2].fn, gocoinPfx) {
+					callee = short(fs[i-2].fn)
+				}
 			}
 			break
 		}
 	}
 	if handler == "" {
 		handler = "Run"
+	}
+	if callee == "" {
+		callee = siteFn
 	}
 	return
 }
@@ -418,10 +440,10 @@ func normMsg(m string) string {
 	m = strings.TrimPrefix(m, "pkg: ")
 	m = strings.TrimPrefix(m, "runtime error: ")
 	m = reAddr.ReplaceAllString(m, "")
-	m = reNum.ReplaceAllString(m, "")
+	m = reNum.ReplaceAllString(m, "N")
 	m = strings.Join(strings.Fields(m), "-")
-	if len(m) > 60 {
-		m = m[:60]
+	if len(m) > 70 {
+		m = m[:70]
 	}
 	return m
 }
@@ -637,15 +659,25 @@ func (r *connRun) evName(cs *Case, i int) string {
 	return e.T
 }
 
+var trace = os.Getenv("C18_TRACE") != ""
+
 func runNet(n *nodeEnv, cs *Case) (res Result) {
 	res.ID = cs.ID
+	tr0 := time.Now()
+	tr := func(what string) {
+		if trace {
+			fmt.Fprintf(os.Stderr, "TRACE %d %s %v\n", cs.ID, what, time.Since(tr0))
+		}
+	}
 	n.reset(cs)
+	tr("reset")
 	ad, err := peersdb.NewIncommingConnection("93.184.216.34:50001", true)
 	if err != nil || ad == nil {
 		ev.HarnessError("peer address: %v", err)
 	}
 	pc := newPconn()
-	c := network.NewConnection(ad)
+	c := network.VerifNewConnection(n.spare, ad)
+	n.spare = nil
 	c.X.Incomming = true
 	c.X.ConnectedAt = time.Now()
 	c.Conn = pc
@@ -707,11 +739,14 @@ func runNet(n *nodeEnv, cs *Case) (res Result) {
 			return &Violation{Key: "net/" + h + "/deadlock@" + fn, Stack: info,
 				What: fmt.Sprintf("processing %q blocks forever on a mutex at %s (%s): the lock was left held earlier on this connection", cmd, fn, loc)}
 		}
-		return &Violation{Key: "net/" + h + "/hang@" + fn, Stack: info,
-			What: fmt.Sprintf("processing %q did not finish within %v; Run's goroutine is at %s (%s)", cmd, watchdog, fn, loc)}
+		_, _, _, callee := site4(info, false)
+		return &Violation{Key: "net/" + h + "/hang@" + callee, Stack: info,
+			What: fmt.Sprintf("processing %q did not finish within %v; the handler is inside %s, Run's goroutine currently at %s (%s)", cmd, watchdog, callee, fn, loc)}
 	}
 
+	tr("started")
 	st, info := r.wait()
+	tr("first-park")
 	if st != "parked" {
 		if st == "done" {
 			if v := runEnded(-1, info); v != nil {
@@ -753,6 +788,7 @@ func runNet(n *nodeEnv, cs *Case) (res Result) {
 			ev.HarnessError("unknown event type %q", e.T)
 		}
 		st, info = r.wait()
+		tr("event-" + e.T + "-" + e.Cmd + " " + st)
 		if st == "done" {
 			if v := runEnded(i, info); v != nil {
 				return fail(i, v)
@@ -782,7 +818,9 @@ func runNet(n *nodeEnv, cs *Case) (res Result) {
 			return fail(len(cs.Events), v)
 		}
 	}
+	tr("teardown")
 	network.VerifDelConn(c)
+	n.spare = c // Run has returned through its tear-down and the writing thread is gone: the object can be reused
 	// outcome class of the connection
 	o := network.VerifOutcome(c)
 	var ci network.ConnInfo
@@ -860,6 +898,17 @@ func runSelf(n *nodeEnv, cs *Case) (res Result) {
 
 // ---------------------------------------------------------------------------
 
+var memBase uint64
+
+func memTotal() uint64 {
+	sm := []metrics.Sample{{Name: "/memory/classes/total:bytes"}}
+	metrics.Read(sm)
+	if sm[0].Value.Kind() == metrics.KindUint64 {
+		return sm[0].Value.Uint64()
+	}
+	return 0
+}
+
 func workerMain(prefixDir, scratch string) {
 	in := bufio.NewReaderSize(os.NewFile(3, "cases"), 1<<20)
 	out := os.NewFile(4, "results")
@@ -894,6 +943,13 @@ func workerMain(prefixDir, scratch string) {
 			ev.HarnessError("worker: unknown kind %q", cs.Kind)
 		}
 		res.Micros = time.Since(t0).Microseconds()
+		// a case that made the runtime map gigabytes (huge but successful make())
+		// changes what fits under ulimit -v for the next one: start afresh
+		if mt := memTotal(); memBase == 0 {
+			memBase = mt
+		} else if mt > memBase+(400<<20) {
+			res.Fatal = true
+		}
 		if e := enc.Encode(&res); e != nil {
 			os.Exit(3)
 		}
